@@ -15,6 +15,13 @@
 //!    stack; on HTTP/1 the raw peer parses request line + headers from the wire, on HTTP/2 a hyper h2
 //!    server behind the captured preface records the request.
 //!
+//!  * kind "seq" (with "first")  -> modes "client1"/"client2": a REAL `hyperdriver::Client::builder()` client
+//!    (with_transport(in-memory transport) / with_protocol(HttpConnectionBuilder) / default pool, with_tls(..) when the
+//!    vector has an ALPN result: the peer then runs a real rustls handshake offering exactly that ALPN protocol; env
+//!    C13_CERTS = dir with cert.pem / key.pem) sends TWO requests to one origin: a plain GET with version `prv` that opens
+//!    the connection (record mode "client1"), then the vector's request with version `rv`, which the pool serves with
+//!    that pooled connection (record mode "client2"). The raw peer logs every request it reads from the wire, per connection.
+//!
 //! Output: {"i":n,"v":..,"c":{concrete request},"o":{real observation}}. The harness decides nothing:
 //! WireObs.tla (TLC) evaluates the C13 clauses on every record.
 use std::convert::Infallible;
@@ -500,29 +507,36 @@ fn instantiate(line: &Value, rng: &mut StdRng) -> Value {
                       "preset": "", "preset_lc": ""},
         });
     }
-    let scheme = match v["scheme"].as_str().unwrap() {
-        "other" => pick(OTHER_SCHEMES, rng),
+    let scheme: String = match v["scheme"].as_str().unwrap() {
+        "other" => pick(OTHER_SCHEMES, rng).to_string(),
         s => match s {
-            "http" => "http",
-            "https" => "https",
-            "ws" => "ws",
-            "wss" => "wss",
+            "http" | "https" | "ws" | "wss" => s.to_string(),
             o => panic!("scheme {o}"),
         },
     };
     let secure = scheme == "https" || scheme == "wss";
-    let host = match v["host"].as_str().unwrap() {
+    let host: String = match v["host"].as_str().unwrap() {
         "name" => pick(NAMES, rng),
         "v4" => pick(V4, rng),
         "v6" => pick(V6, rng),
         o => panic!("host kind {o}"),
-    };
+    }
+    .to_string();
     let port: Option<u16> = match v["port"].as_str().unwrap() {
         "absent" => None,
         "default" => Some(if secure { 443 } else { 80 }),
         "xdefault" => Some(if secure { 80 } else { 443 }),
         "other" => Some(pick(OTHER_PORTS, rng)),
         o => panic!("port class {o}"),
+    };
+    // a fixed origin (second request of a client run: same scheme, host spelling and port as the first)
+    let (scheme, host, port) = match line.get("origin").filter(|o| o.is_object()) {
+        Some(o) => (
+            o["scheme"].as_str().unwrap().to_string(),
+            o["host"].as_str().unwrap().to_string(),
+            o["port"].as_u64().map(|p| p as u16),
+        ),
+        None => (scheme, host, port),
     };
     let authority = match port {
         Some(p) => format!("{host}:{p}"),
@@ -577,12 +591,367 @@ fn instantiate(line: &Value, rng: &mut StdRng) -> Value {
         "mode": mode, "alpn": line.get("alpn").cloned().unwrap_or(json!("")), "conn": v["conn"],
         "method": method, "uri": uri, "ver": v["rv"], "headers": headers,
         "uri_display": uri.parse::<http::Uri>().map(|u| u.to_string()).unwrap_or_default(),
+        "origin": {"scheme": scheme, "host": host, "port": port.map(|p| p as i64).unwrap_or(-1)},
         "parts": {"host_lc": host.to_ascii_lowercase(), "port": port.map(|p| p.to_string()).unwrap_or_default(),
                   "authority": authority, "authority_lc": authority.to_ascii_lowercase(),
                   "path": path, "query": query.unwrap_or(""),
                   "preset": preset.clone().unwrap_or_default(),
                   "preset_lc": preset.unwrap_or_default().to_ascii_lowercase()},
     })
+}
+
+// ------------------------------------------------------------------------------------------------
+// modes "client1" / "client2": the REAL client assembled by Client::builder(), two requests to one origin
+#[derive(Debug)]
+struct PlainIo(DuplexStream);
+impl AsyncRead for PlainIo {
+    fn poll_read(mut self: Pin<&mut Self>, cx: &mut Context<'_>, buf: &mut ReadBuf<'_>) -> Poll<std::io::Result<()>> {
+        Pin::new(&mut self.0).poll_read(cx, buf)
+    }
+}
+impl AsyncWrite for PlainIo {
+    fn poll_write(mut self: Pin<&mut Self>, cx: &mut Context<'_>, buf: &[u8]) -> Poll<std::io::Result<usize>> {
+        Pin::new(&mut self.0).poll_write(cx, buf)
+    }
+    fn poll_flush(mut self: Pin<&mut Self>, cx: &mut Context<'_>) -> Poll<std::io::Result<()>> {
+        Pin::new(&mut self.0).poll_flush(cx)
+    }
+    fn poll_shutdown(mut self: Pin<&mut Self>, cx: &mut Context<'_>) -> Poll<std::io::Result<()>> {
+        Pin::new(&mut self.0).poll_shutdown(cx)
+    }
+}
+impl HasConnectionInfo for PlainIo {
+    type Addr = String;
+    fn info(&self) -> ConnectionInfo<String> {
+        ConnectionInfo { local_addr: "harness-client".into(), remote_addr: "harness-peer".into() }
+    }
+}
+impl PoolableStream for PlainIo {
+    fn can_share(&self) -> bool {
+        false
+    }
+}
+
+#[derive(Default, Debug)]
+struct ClientLog {
+    /// per connection (dial order): protocol seen on the wire ("" until the first bytes), TLS or not
+    conns: Vec<(String, bool)>,
+    /// every request read from the wire: (connection index, request)
+    reqs: Vec<(usize, Seen)>,
+}
+
+#[derive(Clone)]
+struct ClientTransport {
+    log: Arc<Mutex<ClientLog>>,
+    tasks: Arc<Mutex<Vec<tokio::task::JoinHandle<()>>>>,
+    tls: Option<Arc<rustls::ServerConfig>>,
+}
+
+impl Service<http::request::Parts> for ClientTransport {
+    type Response = PlainIo;
+    type Error = Infallible;
+    type Future = std::future::Ready<Result<PlainIo, Infallible>>;
+    fn poll_ready(&mut self, _: &mut Context<'_>) -> Poll<Result<(), Infallible>> {
+        Poll::Ready(Ok(()))
+    }
+    fn call(&mut self, _: http::request::Parts) -> Self::Future {
+        let (client, server) = tokio::io::duplex(1 << 16);
+        let id = {
+            let mut l = self.log.lock().unwrap();
+            l.conns.push((String::new(), false));
+            l.conns.len() - 1
+        };
+        let h = tokio::spawn(peer_entry(server, id, self.log.clone(), self.tls.clone()));
+        self.tasks.lock().unwrap().push(h);
+        std::future::ready(Ok(PlainIo(client)))
+    }
+}
+
+/// IO replaying bytes already consumed before the rest of the stream (generic version of `Prefixed`).
+struct Pre<S> {
+    prefix: Vec<u8>,
+    pos: usize,
+    inner: S,
+}
+impl<S: AsyncRead + Unpin> AsyncRead for Pre<S> {
+    fn poll_read(mut self: Pin<&mut Self>, cx: &mut Context<'_>, buf: &mut ReadBuf<'_>) -> Poll<std::io::Result<()>> {
+        if self.pos < self.prefix.len() {
+            let n = std::cmp::min(buf.remaining(), self.prefix.len() - self.pos);
+            let (a, b) = (self.pos, self.pos + n);
+            buf.put_slice(&self.prefix[a..b]);
+            self.pos += n;
+            return Poll::Ready(Ok(()));
+        }
+        Pin::new(&mut self.inner).poll_read(cx, buf)
+    }
+}
+impl<S: AsyncWrite + Unpin> AsyncWrite for Pre<S> {
+    fn poll_write(mut self: Pin<&mut Self>, cx: &mut Context<'_>, buf: &[u8]) -> Poll<std::io::Result<usize>> {
+        Pin::new(&mut self.inner).poll_write(cx, buf)
+    }
+    fn poll_flush(mut self: Pin<&mut Self>, cx: &mut Context<'_>) -> Poll<std::io::Result<()>> {
+        Pin::new(&mut self.inner).poll_flush(cx)
+    }
+    fn poll_shutdown(mut self: Pin<&mut Self>, cx: &mut Context<'_>) -> Poll<std::io::Result<()>> {
+        Pin::new(&mut self.inner).poll_shutdown(cx)
+    }
+}
+
+/// First byte 0x16 = a TLS record: run a real rustls server handshake (offering the configured ALPN), then serve.
+async fn peer_entry(mut s: DuplexStream, id: usize, log: Arc<Mutex<ClientLog>>, tls: Option<Arc<rustls::ServerConfig>>) {
+    let mut first = [0u8; 1];
+    match s.read(&mut first).await {
+        Ok(1) => {}
+        _ => return,
+    }
+    let pre = Pre { prefix: first.to_vec(), pos: 0, inner: s };
+    if first[0] == 0x16 {
+        let Some(cfg) = tls else { return };
+        log.lock().unwrap().conns[id].1 = true;
+        match tokio_rustls::TlsAcceptor::from(cfg).accept(pre).await {
+            Ok(t) => peer_serve(t, id, log).await,
+            Err(_) => {}
+        }
+    } else {
+        peer_serve(pre, id, log).await
+    }
+}
+
+/// Raw peer serving any number of requests on one connection, logging each as read from the wire.
+async fn peer_serve<S: AsyncRead + AsyncWrite + Unpin + Send + 'static>(mut s: S, id: usize, log: Arc<Mutex<ClientLog>>) {
+    let mut buf: Vec<u8> = Vec::new();
+    let mut tmp = [0u8; 4096];
+    loop {
+        let n = match s.read(&mut tmp).await {
+            Ok(0) | Err(_) => return,
+            Ok(n) => n,
+        };
+        buf.extend_from_slice(&tmp[..n]);
+        let m = std::cmp::min(buf.len(), PREFACE.len());
+        if buf[..m] == PREFACE[..m] {
+            if buf.len() < PREFACE.len() {
+                continue;
+            }
+            log.lock().unwrap().conns[id].0 = "h2".into();
+            let log2 = log.clone();
+            let svc = hyper::service::service_fn(move |req: http::Request<hyper::body::Incoming>| {
+                let log3 = log2.clone();
+                async move {
+                    log3.lock().unwrap().reqs.push((id, Seen::of(&req)));
+                    Ok::<_, Infallible>(http::Response::new(Empty::<Bytes>::new()))
+                }
+            });
+            let io = TokioIo::new(Pre { prefix: buf, pos: 0, inner: s });
+            let _ = hyper::server::conn::http2::Builder::new(TokioExecutor::new()).serve_connection(io, svc).await;
+            return;
+        }
+        while let Some(end) = buf.windows(4).position(|w| w == b"\r\n\r\n") {
+            {
+                let mut l = log.lock().unwrap();
+                match parse_h1_head(&buf[..end + 4]) {
+                    Some(seen) => {
+                        if l.conns[id].0.is_empty() {
+                            l.conns[id].0 = if seen.ver == "1.1" { "h1".into() } else { format!("h1-http/{}", seen.ver) };
+                        }
+                        l.reqs.push((id, seen));
+                    }
+                    None => {
+                        if l.conns[id].0.is_empty() {
+                            l.conns[id].0 = "garbage".into();
+                        }
+                    }
+                }
+            }
+            buf.drain(..end + 4);
+            if s.write_all(b"HTTP/1.1 200 OK\r\ncontent-length: 0\r\n\r\n").await.is_err() {
+                return;
+            }
+            let _ = s.flush().await;
+        }
+    }
+}
+
+#[derive(Debug)]
+struct AcceptAnyCert(Arc<rustls::crypto::CryptoProvider>);
+impl rustls::client::danger::ServerCertVerifier for AcceptAnyCert {
+    fn verify_server_cert(
+        &self,
+        _: &rustls::pki_types::CertificateDer<'_>,
+        _: &[rustls::pki_types::CertificateDer<'_>],
+        _: &rustls::pki_types::ServerName<'_>,
+        _: &[u8],
+        _: rustls::pki_types::UnixTime,
+    ) -> Result<rustls::client::danger::ServerCertVerified, rustls::Error> {
+        Ok(rustls::client::danger::ServerCertVerified::assertion())
+    }
+    fn verify_tls12_signature(
+        &self,
+        m: &[u8],
+        c: &rustls::pki_types::CertificateDer<'_>,
+        d: &rustls::DigitallySignedStruct,
+    ) -> Result<rustls::client::danger::HandshakeSignatureValid, rustls::Error> {
+        rustls::crypto::verify_tls12_signature(m, c, d, &self.0.signature_verification_algorithms)
+    }
+    fn verify_tls13_signature(
+        &self,
+        m: &[u8],
+        c: &rustls::pki_types::CertificateDer<'_>,
+        d: &rustls::DigitallySignedStruct,
+    ) -> Result<rustls::client::danger::HandshakeSignatureValid, rustls::Error> {
+        rustls::crypto::verify_tls13_signature(m, c, d, &self.0.signature_verification_algorithms)
+    }
+    fn supported_verify_schemes(&self) -> Vec<rustls::SignatureScheme> {
+        self.0.signature_verification_algorithms.supported_schemes()
+    }
+}
+
+/// (client config offering h2 and http/1.1, server config offering exactly the ALPN result wanted)
+fn tls_configs(alpn: &str) -> (rustls::ClientConfig, Arc<rustls::ServerConfig>) {
+    let dir = std::env::var("C13_CERTS").expect("env C13_CERTS (directory with cert.pem and key.pem)");
+    let provider = Arc::new(rustls::crypto::ring::default_provider());
+    let _ = rustls::crypto::ring::default_provider().install_default();
+    let (_, cert) = pem_rfc7468::decode_vec(&std::fs::read(format!("{dir}/cert.pem")).expect("cert.pem")).expect("cert pem");
+    let key_pem = std::fs::read(format!("{dir}/key.pem")).expect("key.pem");
+    let (label, key) = pem_rfc7468::decode_vec(&key_pem).expect("key pem");
+    let key = match label {
+        "PRIVATE KEY" => rustls::pki_types::PrivateKeyDer::Pkcs8(key.into()),
+        "RSA PRIVATE KEY" => rustls::pki_types::PrivateKeyDer::Pkcs1(key.into()),
+        "EC PRIVATE KEY" => rustls::pki_types::PrivateKeyDer::Sec1(key.into()),
+        o => panic!("unknown key type {o}"),
+    };
+    let mut server = rustls::ServerConfig::builder()
+        .with_no_client_auth()
+        .with_single_cert(vec![rustls::pki_types::CertificateDer::from(cert)], key)
+        .expect("server config");
+    server.alpn_protocols = match alpn {
+        "noalpn" => vec![],
+        a => vec![a.as_bytes().to_vec()],
+    };
+    let mut client = rustls::ClientConfig::builder()
+        .dangerous()
+        .with_custom_certificate_verifier(Arc::new(AcceptAnyCert(provider)))
+        .with_no_client_auth();
+    client.alpn_protocols = vec![b"h2".to_vec(), b"http/1.1".to_vec()];
+    (client, Arc::new(server))
+}
+
+/// Runs the two requests c1, c2 (same origin) on one real client; returns their observations.
+async fn run_client(c1: &Value, c2: &Value) -> (Value, Value) {
+    let alpn = c2["alpn"].as_str().unwrap().to_string();
+    let log = Arc::new(Mutex::new(ClientLog::default()));
+    let tasks = Arc::new(Mutex::new(Vec::new()));
+    let (ccfg, scfg) = if alpn == "notls" { (None, None) } else { let (c, s) = tls_configs(&alpn); (Some(c), Some(s)) };
+    let transport = ClientTransport { log: log.clone(), tasks: tasks.clone(), tls: scfg };
+    let (c1b, c2b) = (c1.clone(), c2.clone());
+    let fut = async move {
+        // the stack is whatever client/builder.rs assembles
+        let b = hyperdriver::Client::builder()
+            .with_transport(transport)
+            .with_protocol(HttpConnectionBuilder::<hyperdriver::Body>::default())
+            .with_default_pool();
+        let b = match ccfg {
+            Some(c) => b.with_tls(c),
+            None => b,
+        };
+        let client = b.build();
+        let mut results = vec![];
+        for c in [&c1b, &c2b] {
+            let req = build_request(c).map(|_| hyperdriver::Body::empty());
+            let r = tokio::time::timeout(Duration::from_secs(5), client.clone().oneshot(req)).await;
+            results.push(match r {
+                Err(_) => ("timeout".to_string(), String::new()),
+                Ok(Ok(resp)) => {
+                    drop(resp);
+                    ("ok".to_string(), String::new())
+                }
+                Ok(Err(e)) => ("error".to_string(), format!("{e}")),
+            });
+            // the response is consumed: let the connection find its way back into the pool
+            tokio::time::sleep(Duration::from_millis(10)).await;
+        }
+        drop(client);
+        results
+    };
+    let res = AssertUnwindSafe(fut).catch_unwind().await;
+    tokio::time::sleep(Duration::from_millis(1)).await;
+    for h in tasks.lock().unwrap().drain(..) {
+        h.abort();
+    }
+    let l = log.lock().unwrap();
+    let results = match res {
+        Ok(r) => r,
+        Err(p) => {
+            let m = panic_msg(p);
+            vec![("panicked".to_string(), m.clone()), ("panicked".to_string(), m)]
+        }
+    };
+    let rid = |c: &Value| -> String {
+        c["headers"].as_array().unwrap().iter().find(|h| h[0] == "x-request-id").map(|h| h[1].as_str().unwrap().to_string()).unwrap()
+    };
+    let mut out = vec![];
+    let mut first_conn: Option<usize> = None;
+    for (k, c) in [c1, c2].iter().enumerate() {
+        let id = rid(c);
+        let hits: Vec<&(usize, Seen)> =
+            l.reqs.iter().filter(|(_, s)| s.headers.iter().any(|(n, v)| n == "x-request-id" && *v == id)).collect();
+        let (st, err) = &results[k];
+        let kind = match (st.as_str(), hits.is_empty()) {
+            ("ok", false) => "sent",
+            ("ok", true) => "answered_without_send",
+            ("error", true) => "error",
+            ("error", false) => "error_after_send",
+            (o, _) => o,
+        };
+        // the connection that carried it; a request that never reached the wire is attributed to the only connection
+        let conn = hits.first().map(|(c, _)| *c).or(if l.conns.len() == 1 { Some(0) } else { None });
+        let proto = conn.map(|c| l.conns[c].0.clone()).filter(|p| !p.is_empty()).unwrap_or_else(|| "none".into());
+        if k == 0 {
+            first_conn = conn;
+        }
+        let o = match (hits.first(), kind) {
+            (Some((_, s)), "sent") | (Some((_, s)), "error_after_send") => s.obs(),
+            _ => blank_obs(),
+        };
+        out.push(merge(
+            o,
+            json!({"kind": kind, "err": err, "proto": proto, "dials": l.conns.len(), "requests": hits.len(),
+                   "conn": conn.map(|c| c as i64).unwrap_or(-1), "reused": k == 1 && conn.is_some() && conn == first_conn,
+                   "tls": conn.map(|c| l.conns[c].1).unwrap_or(false), "first": ""}),
+        ));
+    }
+    let o2 = out.pop().unwrap();
+    let o1 = out.pop().unwrap();
+    (o1, o2)
+}
+
+/// Instantiates a "seq" line: (c1, c2) with a shared origin.
+fn instantiate_client(line: &Value, rng: &mut StdRng, n: usize) -> (Value, Value) {
+    let alpn = line["v"]["alpn"].clone();
+    let mut c2 = instantiate(&json!({"v": line["v"]}), rng);
+    let mut c1 = instantiate(&json!({"v": line["first"], "origin": c2["origin"]}), rng);
+    for (c, mode, tag) in [(&mut c1, "client1", "a"), (&mut c2, "client2", "b")] {
+        c["mode"] = json!(mode);
+        c["alpn"] = alpn.clone();
+        c["conn"] = json!("");
+        for h in c["headers"].as_array_mut().unwrap() {
+            if h[0] == "x-request-id" {
+                h[1] = json!(format!("k{n}{tag}"));
+            }
+        }
+    }
+    (c1, c2)
+}
+
+/// Runs a client pair and emits its two records.
+async fn emit_client(v1: &Value, v2: &Value, c1: &Value, c2: &Value, out: &mut TraceOut, n: &mut usize) {
+    let (o1, o2) = run_client(c1, c2).await;
+    let pair = serde_json::to_string(&json!({"v1": v1, "v2": v2, "c1": c1, "c2": c2})).unwrap();
+    for (v, c, o) in [(v1, c1, o1), (v2, c2, o2)] {
+        let mut c = c.clone();
+        c["pair_json"] = json!(pair);
+        *n += 1;
+        out.emit(&json!({"i": *n, "v": v, "c": c, "o": o}));
+    }
 }
 
 async fn run(c: &Value) -> Value {
@@ -619,6 +988,13 @@ async fn main() {
             let k: usize = a[5].parse().unwrap();
             let mut rng = StdRng::seed_from_u64(seed ^ 0xC13);
             for line in read_lines(&a[2]) {
+                if line["v"]["kind"] == "seq" {
+                    for _ in 0..k {
+                        let (c1, c2) = instantiate_client(&line, &mut rng, n);
+                        emit_client(&line["first"], &line["v"], &c1, &c2, &mut out, &mut n).await;
+                    }
+                    continue;
+                }
                 let reps = if line["v"]["kind"] == "sel" { std::cmp::max(k, 8) } else { k };
                 for _ in 0..reps {
                     let c = instantiate(&line, &mut rng);
@@ -629,7 +1005,19 @@ async fn main() {
             }
         }
         "rerun" => {
+            let mut pairs_done: Vec<String> = vec![];
             for r in read_lines(&a[2]) {
+                if r["c"]["mode"] == "client1" || r["c"]["mode"] == "client2" {
+                    // a client record stands for its two-request run: replay the run once
+                    let pj = r["c"]["pair_json"].as_str().unwrap().to_string();
+                    if pairs_done.contains(&pj) {
+                        continue;
+                    }
+                    pairs_done.push(pj.clone());
+                    let p: Value = serde_json::from_str(&pj).unwrap();
+                    emit_client(&p["v1"], &p["v2"], &p["c1"], &p["c2"], &mut out, &mut n).await;
+                    continue;
+                }
                 let o = run(&r["c"]).await;
                 n += 1;
                 out.emit(&json!({"i": n, "v": r["v"], "c": r["c"], "o": o}));
